@@ -542,18 +542,22 @@ def transfer(w, lab):
         w2 = World(w.uni, w.read_mem(), w.taskspec)
         w2.m.copy_expr_from(w.m, w.uni["label"])
     elif kind == "copy_bind":
-        u2 = rebase(w.uni)
-        w2 = World(u2, w.read_mem(), w.taskspec)
-        w2.m.copy_expr_from(w.m, w.uni["label"], bindings={w.sref: w2.sref["sub"]})
+        if w.uni["name"].endswith("/rebased"):      # already one level down: same shape on the other side, the label is bound to the new container ref
+            w2 = World(w.uni, w.read_mem(), w.taskspec)
+            w2.m.copy_expr_from(w.m, w.uni["label"], bindings={w.sref: w2.sref})
+        else:
+            u2 = rebase(w.uni)
+            w2 = World(u2, w.read_mem(), w.taskspec)
+            w2.m.copy_expr_from(w.m, w.uni["label"], bindings={w.sref: w2.sref["sub"]})
     elif kind == "copy_keep":
         w2 = World(w.uni, w.read_mem(), w.taskspec)
         _assign(w2, lab["keeploc"], w2.build_expr(lab["keepexpr"]))
         w2.m.copy_expr_from(w.m, w.uni["label"], overwrite=False)
     elif kind == "copy_bind_keep":
-        u2 = rebase(w.uni)
-        w2 = World(u2, w.read_mem(), w.taskspec)
+        reb = w.uni["name"].endswith("/rebased")
+        w2 = World(w.uni if reb else rebase(w.uni), w.read_mem(), w.taskspec)
         _assign(w2, lab["keeploc"], w2.build_expr(lab["keepexpr"]))
-        w2.m.copy_expr_from(w.m, w.uni["label"], bindings={w.sref: w2.sref["sub"]}, overwrite=False)
+        w2.m.copy_expr_from(w.m, w.uni["label"], bindings={w.sref: (w2.sref if reb else w2.sref["sub"])}, overwrite=False)
     else:
         raise KeyError(kind)
     w2.shadows = list(w.shadows)
